@@ -430,6 +430,10 @@ def main():
         print(json.dumps({'monitors': monitors, 'observed': observed, 'worst': worst}, indent=1))
         for c, v in viol_unknown[:5]:
             print(json.dumps(v, indent=1)[:3000])
+        for c in cases:
+            r = results.get(c['idx'], {})
+            print('case', c['idx'], 'nt=%s' % r.get('nontrivial'), 'wall=%.1f' % r.get('wall', 0), 'inc=%s' % r.get('inconclusive'),
+                  json.dumps(r.get('info'))[:400], json.dumps(r.get('observed'))[:300])
     sys.exit(code)
 
 
